@@ -704,3 +704,51 @@ Proof.
   intros E. destruct (export_inv _ _ _ E) as (dts & sots & objs & svals & D & _ & _ & _ & ->).
   exists dts. simpl. repeat split. apply (build_datatypes_nodup _ _ _ D).
 Qed.
+
+(* ---------- a concrete archive format: the hypothesis of compressed_same (unzip inverts zip) is
+   satisfiable.  Each member is written as <len name> name <len data> data. ---------- *)
+Definition ex_zip (ms : list (str * str)) : str :=
+  flat_map (fun p => N.of_nat (length (fst p)) :: fst p ++ N.of_nat (length (snd p)) :: snd p) ms.
+Fixpoint ex_unzip_go (fuel : nat) (s : str) : option (list (str * str)) :=
+  match fuel with
+  | O => match s with [] => Some [] | _ => None end
+  | S f =>
+      match s with
+      | [] => Some []
+      | la :: r =>
+          match skipn (N.to_nat la) r with
+          | [] => None
+          | lb :: r2 =>
+              match ex_unzip_go f (skipn (N.to_nat lb) r2) with
+              | Some t => Some ((firstn (N.to_nat la) r, firstn (N.to_nat lb) r2) :: t)
+              | None => None
+              end
+          end
+      end
+  end.
+Definition ex_unzip (s : str) : option (list (str * str)) := ex_unzip_go (length s) s.
+
+Lemma firstn_skipn_app_exact {A} (a x : list A) :
+  firstn (length a) (a ++ x) = a /\ skipn (length a) (a ++ x) = x.
+Proof. induction a as [|y a [IH1 IH2]]; simpl; [auto|]. split; congruence. Qed.
+Lemma ex_zip_cons a b ms :
+  ex_zip ((a, b) :: ms) = N.of_nat (length a) :: a ++ N.of_nat (length b) :: b ++ ex_zip ms.
+Proof. unfold ex_zip. simpl. rewrite <- app_assoc. reflexivity. Qed.
+Lemma ex_zip_length ms : (length ms <= length (ex_zip ms))%nat.
+Proof.
+  induction ms as [|[a b] ms IH]; [simpl; lia|].
+  rewrite ex_zip_cons. cbn [length]. rewrite app_length. cbn [length]. rewrite app_length. lia.
+Qed.
+Lemma ex_unzip_go_zip ms : forall fuel, (length ms <= fuel)%nat -> ex_unzip_go fuel (ex_zip ms) = Some ms.
+Proof.
+  induction ms as [|[a b] ms IH]; intros fuel H.
+  - destruct fuel; reflexivity.
+  - destruct fuel as [|f]; [simpl in H; lia|].
+    rewrite ex_zip_cons. cbn [ex_unzip_go]. rewrite Nat2N.id.
+    destruct (firstn_skipn_app_exact a (N.of_nat (length b) :: b ++ ex_zip ms)) as [F1 S1].
+    rewrite S1, F1, Nat2N.id.
+    destruct (firstn_skipn_app_exact b (ex_zip ms)) as [F2 S2]. rewrite S2, F2.
+    rewrite IH by (simpl in H; lia). reflexivity.
+Qed.
+Lemma ex_unzip_zip ms : ex_unzip (ex_zip ms) = Some ms.
+Proof. apply ex_unzip_go_zip, ex_zip_length. Qed.
